@@ -49,6 +49,7 @@ def instances(tier):
         if g == 5:
             for what in ("zone", "ac", "timer"):
                 out.append({"kind": "subheader", "gen": 5, "what": what})
+            out.append({"kind": "redundant_byte", "gen": 5})
         out.append({"kind": "stride", "gen": 5, "delta": 3 if g == 4 else 6, "what": "zone"})
         out.append({"kind": "stride", "gen": 5, "delta": 2 if g == 4 else 5, "what": "ac"})
         out.append({"kind": "stride", "gen": 5, "delta": 1 if g == 4 else 4, "what": "timer"})
@@ -155,6 +156,38 @@ def _subheader(ctx, p):
         ctx.check(not is_req, "stride.prefix_decoded", detail=dict(detail, why="a malformed report was delivered as a request"))
         ctx.check(not first or n_recs == 0, "stride.prefix_decoded", detail=dict(detail, why="records delivered that the frame does not contain"))
     for lab in ("unknown.delivered_unchanged", "unknown.connection_undisturbed", "free.header_as_reference", "free.task_survives"):
+        ctx.reach(lab)
+
+
+def _redundant_byte(ctx, p):
+    """AirTouch 5 v1.2 section 3.h: 'a 00 is inserted after every three consecutive 0x55s in the package. The inserted 00 is
+    redundant bytes. Redundant bytes do not participate in check calculation.' A zone-names answer for a zone called 'UUUX'
+    therefore arrives as ... 55 55 55 00 58 ...; the document does not say whether the length field counts the inserted
+    byte, so both readings are offered (solver-chosen). What those bytes mean is the name 'UUUX'. The client implements the
+    rule on neither path (recorded as KF-C17-1, not repaired: byte stuffing on both paths is a feature, and the length
+    question needs a real console to settle)."""
+    g = Gen(5)
+    counted = bool(ctx.choice("length_counts_inserted_byte", 2))
+    payload = framing.ext(0xFF13, [2, 4] + list(b"UUUX"))
+    plain = framing.frame(5, 0xB0, 0x90, 7, 0x1F, payload)          # check bytes over the unstuffed bytes
+    hl = framing.header_len(5)
+    body = list(plain[hl:-2])
+    i = next(k for k in range(len(body) - 2) if body[k:k + 3] == [0x55, 0x55, 0x55])
+    stuffed_body = body[:i + 3] + [0x00] + body[i + 3:]
+    head = list(plain[:hl])
+    if counted:
+        n = len(stuffed_body)
+        head[-2], head[-1] = (n >> 8) & 0xFF, n & 0xFF
+    fr = head + stuffed_body + list(plain[-2:])
+    got, conns, fails = _deliver_and_probe(ctx, g, fr)
+    first = [m for _, h, m in got if getattr(m, "unsupported_id", None) != 0x78]
+    names = getattr(getattr(first[0], "sub_message", None), "zone_names", None) if first else None
+    ok = bool(first) and names is not None and dict(names) == {2: "UUUX"} and conns == 1
+    ctx.observe("delivered", len(first))
+    ctx.check(ok, "free.header_as_reference", known=[("KF-C17-1", True)],
+              detail={"length_counts_inserted_byte": counted, "delivered": len(first), "names": repr(names), "conns": conns})
+    ctx.check(not fails, "free.task_survives", detail="unhandled exception in the receive task")
+    for lab in expect_labels("quick"):
         ctx.reach(lab)
 
 
